@@ -1243,58 +1243,92 @@ def corr_sanitizer(seed, tier):
 
 # ----------------------------------------------------------------------------------------------------- labelled frame
 def corr_frame(seed, tier):
-    """the whole preprocessing chain (rename, stack, sanitize) and its inverse on (time, lat, lon) fields with unsorted / string
-    coordinates and fully missing samples/features, against S.Frame: shape of the positional matrix, and every value (or NaN)
-    read back at its own label"""
+    """the whole preprocessing chain (rename, stack, sanitize, concatenate) and its inverse on (time, lat, lon) fields given as a
+    DataArray, as a Dataset of two variables or as a list of two arrays with different grids, with unsorted / string coordinates and
+    fully missing samples / cells (different cells per variable or item), against S.Frame over the keys (variable-or-item, lat,
+    lon): shape of the positional matrix, every value (or NaN) read back at its own label, container type and names"""
     from xeofs.preprocessing.preprocessor import Preprocessor
 
     R = Result("frame")
     rng = np.random.default_rng(6000 + seed)
     reqs, exps = [], []
-    for i in range({"quick": 16, "thorough": 150, "search": 60}[tier]):
+    for i in range({"quick": 18, "thorough": 150, "search": 60}[tier]):
+        container = ["DA", "DS", "LIST"][(i // 3) % 3]
         n, ny, nx = int(rng.integers(2, 6)), int(rng.integers(1, 4)), int(rng.integers(1, 4))
         ckind = ["asc", "unsorted", "str"][i % 3]
-        lat = np.arange(ny) * 10.0
-        lon = np.arange(nx) * 5.0
         t = np.arange(n)
         if ckind == "unsorted":
-            lat, lon, t = rng.permutation(lat), rng.permutation(lon), rng.permutation(t)
-        A = np.round(rng.normal(size=(n, ny, nx)), 6)
+            t = rng.permutation(t)
         okS = rng.random(n) < 0.8
-        okF = rng.random((ny, nx)) < 0.8
         if not okS.any():
             okS[0] = True
-        if not okF.any():
-            okF[0, 0] = True
-        A[~okS, :, :] = np.nan
-        A[:, ~okF] = np.nan
-        coords = {"time": t, "lat": lat, "lon": [f"c{int(v)}" for v in lon] if ckind == "str" else lon}
         order = [("time", "lat", "lon"), ("lat", "time", "lon"), ("lon", "lat", "time")][i % 3]
-        X = xr.DataArray(A, dims=["time", "lat", "lon"], coords=coords).transpose(*order)
+
+        def one(ny_, nx_):
+            lat = np.arange(ny_) * 10.0
+            lon = np.arange(nx_) * 5.0
+            if ckind == "unsorted":
+                lat, lon = rng.permutation(lat), rng.permutation(lon)
+            A = np.round(rng.normal(size=(n, ny_, nx_)), 6)
+            okF = rng.random((ny_, nx_)) < 0.8
+            if not okF.any():
+                okF[0, 0] = True
+            A[~okS, :, :] = np.nan
+            A[:, ~okF] = np.nan
+            coords = {"time": t, "lat": lat, "lon": [f"c{int(v)}" for v in lon] if ckind == "str" else lon}
+            return xr.DataArray(A, dims=["time", "lat", "lon"], coords=coords).transpose(*order), okF
+
+        if container == "DA":
+            A, okA = one(ny, nx)
+            obj, parts = A, [("v", A, okA)]
+        elif container == "DS":
+            A, okA = one(ny, nx)
+            B, okB = one(ny, nx)
+            B = B.assign_coords(lat=A.lat, lon=A.lon)
+            obj, parts = xr.Dataset({"a": A, "b": B}), [("a", A, okA), ("b", B, okB)]
+        else:
+            A, okA = one(ny, nx)
+            B, okB = one(int(rng.integers(1, 4)), int(rng.integers(1, 3)))
+            obj, parts = [A, B], [("item0", A, okA), ("item1", B, okB)]
+        R.tally("container", container)
         R.tally("coords", ckind)
         R.tally("dim_order", "/".join(order))
-        R.tally("missing", f"samples={int((~okS).sum()>0)},features={int((~okF).sum()>0)}")
+        R.tally("missing", f"samples={int((~okS).sum() > 0)},cells={int(sum((~ok).sum() for _, _, ok in parts) > 0)}")
         pp = Preprocessor(with_center=False)
-        X2 = pp.fit_transform(X, ["time"])
+        X2 = pp.fit_transform(obj, ["time"])
         back = pp.inverse_transform_data(X2)
-        # labels in the order of the input container
-        Xs = X.transpose("time", "lat", "lon")
-        rows = [repr(v) for v in Xs.time.values.tolist()]
-        cols = [repr((a, b)) for a in Xs.lat.values.tolist() for b in Xs.lon.values.tolist()]
-        vals = [repr(float(v)) for v in Xs.values.reshape(n, -1).ravel()]
-        okF_flat = okF.ravel() if True else None
-        # okF in the order of Xs' feature labels (A was built in that order)
-        req = {"fn": "frame", "rows": rows, "cols": cols, "okS": okS.tolist(), "okF": [bool(b) for b in okF_flat], "vals": vals}
-        # fully missing samples are absent from the positional matrix and from what comes back: absent == NaN
-        bs = back.transpose("time", "lat", "lon").reindex(time=Xs.time.values, lat=Xs.lat.values, lon=Xs.lon.values)
-        exp_back = [["nan" if np.isnan(v) else repr(float(v)) for v in row] for row in bs.values.reshape(n, -1)]
+        rows = [repr(v) for v in t.tolist()]
+        cols, okF_all, blocks = [], [], []
+        for tag, P, ok in parts:
+            Ps = P.transpose("time", "lat", "lon")
+            cols += [repr((tag, a, b)) for a in Ps.lat.values.tolist() for b in Ps.lon.values.tolist()]
+            okF_all += [bool(x) for x in ok.ravel()]
+            blocks.append(Ps.values.reshape(n, -1))
+        M = np.concatenate(blocks, axis=1)
+        req = {"fn": "frame", "rows": rows, "cols": cols, "okS": okS.tolist(), "okF": okF_all, "vals": [repr(float(v)) for v in M.ravel()]}
+        # what came back, flattened the same way; fully missing samples are absent from the matrix and from the result: absent == NaN
+        ok_struct = (isinstance(back, xr.DataArray) and container == "DA") or (isinstance(back, xr.Dataset) and container == "DS" and sorted(back.data_vars) == ["a", "b"]) \
+            or (isinstance(back, list) and container == "LIST" and len(back) == 2)
+        bblocks = []
+        if ok_struct:
+            for k, (tag, P, ok) in enumerate(parts):
+                Bk = back if container == "DA" else (back[tag] if container == "DS" else back[k])
+                Ps = P.transpose("time", "lat", "lon")
+                if set(Bk.dims) != {"time", "lat", "lon"}:
+                    ok_struct = False
+                    break
+                bs = Bk.transpose("time", "lat", "lon").reindex(time=Ps.time.values, lat=Ps.lat.values, lon=Ps.lon.values)
+                bblocks.append(bs.values.reshape(n, -1))
+        exp_back = [["nan" if np.isnan(v) else repr(float(v)) for v in row] for row in np.concatenate(bblocks, axis=1)] if ok_struct else None
         reqs.append(req)
-        exps.append({"shape": [int(X2.sizes["sample"]), int(X2.sizes["feature"])], "back": exp_back, "container": type(back).__name__,
-                     "dims": sorted(back.dims)})
+        exps.append({"shape": [int(X2.sizes["sample"]), int(X2.sizes["feature"])], "back": exp_back, "structure_ok": ok_struct,
+                     "container": type(back).__name__})
     for req, exp, ans in zip(reqs, exps, ask(reqs)):
-        R.cmp("matrix_shape", ans["shape"] == exp["shape"], req, ans["shape"], exp["shape"])
-        R.cmp("read_back", ans["back"] == exp["back"], req, ans["back"], exp["back"])
-        R.cmp("container", exp["container"] == "DataArray" and exp["dims"] == ["lat", "lon", "time"], req, "DataArray(lat,lon,time)", exp)
+        small = {"rows": req["rows"], "n_cols": len(req["cols"]), "okS": req["okS"], "okF": req["okF"]}
+        R.cmp("matrix_shape", ans["shape"] == exp["shape"], small, ans["shape"], exp["shape"])
+        R.cmp("container_and_dims", bool(exp["structure_ok"]), small, "same container, variable names and dimensions", exp["container"])
+        if exp["back"] is not None:
+            R.cmp("read_back", ans["back"] == exp["back"], small, ans["back"], exp["back"])
     return R
 
 
